@@ -114,6 +114,29 @@ impl Spec {
         }
     }
     /// The top-level view this stack presents initially (union semantics for overlays).
+    /// some overlay of the stack holds a directory in one layer and a same-named file in a deeper one
+    pub fn has_dir_over_file(&self) -> bool {
+        match self {
+            Spec::Mem { .. } | Spec::Phys { .. } | Spec::Emb => false,
+            Spec::Alt { inner, .. } => inner.has_dir_over_file(),
+            Spec::OvlSub { base, .. } => base.has_dir_over_file(),
+            Spec::Ovl { layers } => {
+                if layers.iter().any(|l| l.has_dir_over_file()) {
+                    return true;
+                }
+                let views: Vec<Model> = layers.iter().map(|l| l.view()).collect();
+                for i in 0..views.len() {
+                    for (k, v) in &views[i].t {
+                        if matches!(v, Node::Dir) && !k.is_empty() && views[i + 1..].iter().any(|w| matches!(w.t.get(k), Some(Node::File(_)))) {
+                            return true;
+                        }
+                    }
+                }
+                false
+            }
+        }
+    }
+
     pub fn view(&self) -> Model {
         match self {
             Spec::Mem { pre } | Spec::Phys { pre } => {
